@@ -56,6 +56,13 @@ def run(ctx):
     for a in range(-6, 7):
         for b in range(-6, 7):
             lines.append("S %d %d" % (a, b))
+    # popcount over a byte buffer: every length 0..19 (all residues of the 8- / 4- / 1-byte loops), high and low bytes in every position class
+    for n in range(0, 20):
+        for pat in ((0xFF,), (0x80,), (0x11,), (0x7F, 0x80), (0x01, 0xFE, 0x80)):
+            lines.append("B %d %s" % (n, " ".join(str(pat[i % len(pat)]) for i in range(n))))
+    for i in range(100 if quick else 3000):
+        n = rng.randint(0, 40)
+        lines.append("B %d %s" % (n, " ".join(str(rng.choice((0, 1, 0x7F, 0x80, 0xFF, rng.randrange(256)))) for _ in range(n))))
     # Aggregate<T> for T in long long / int / double / float / unsigned; values of both signs (all-negative, all-zero and mixed lists included)
     small = [list(c) for n in range(0, 3) for c in itertools.product((0, 1, 5), repeat=n)]
     smalln = [list(c) for n in range(0, 3) for c in itertools.product((-7, -1, 0, 3), repeat=n)]
@@ -78,14 +85,20 @@ def run(ctx):
     exe = build(ctx, "drv_math", [src])
     tr = ctx.path("math.ndjson")
     run_driver_checked(ctx, exe, [scr, tr], what="drv_math", replay_src=scr)
-    exe_u = build(ctx, "drv_math_ubsan", [src], flags=["-fsanitize=undefined", "-fno-sanitize-recover=undefined"])
+    exe_u = build(ctx, "drv_math_ubsan", [src], flags=["-fsanitize=undefined", "-fno-sanitize=alignment", "-fno-sanitize-recover=undefined"])
+    # (popcount(const void*, size) reads 8- / 4-byte words at whatever alignment the caller's buffer has: an out-of-scope observation like the unaligned loads of
+    # siphash_plain, not part of C20, which is about values; the alignment check is therefore off in the monitor build)
     run_driver_checked(ctx, exe_u, [scr, ctx.path("math_ubsan.ndjson")], what="drv_math(ubsan)", replay_src=scr, timeout=3000)
     if not (os.path.exists(tr) and os.path.getsize(tr)):
         return
     tl = [x for x in read_text(tr).split("\n") if x and '"e":"reset"' not in x]
     ctx.sample({"recorded_word_event": json.loads(tl[300])})
     files = []
-    for kind in ("word", "arith", "small", "agg"):       # one file per event kind: every class of helper gets its own rejection budget
+    KINDS = ("word", "arith", "small", "agg", "popbuf")
+    unknown = [x[:80] for x in tl if not any(('"e":"%s"' % k) in x for k in KINDS)]
+    if unknown:
+        raise InternalError("recorded events of a kind that no validation file takes: %s" % unknown[:2])
+    for kind in KINDS:       # one file per event kind: every class of helper gets its own rejection budget
         evs = [x for x in tl if ('"e":"%s"' % kind) in x]
         per = ctx.path("math_%s.ndjson" % kind)
         with open(per, "w") as f:
@@ -99,6 +112,8 @@ def run(ctx):
             return ("math/%s/w%s" % (e.get("e"), e.get("w")), "an integer helper returned a value different from its definition for the %s-bit word with limbs %s" % (e.get("w"), e.get("v")))
         if e.get("e") == "agg":
             return ("math/aggregate", "Aggregate combination of %s and %s disagrees with the exact count / min / max / sum / variance" % (e.get("xs"), e.get("ys")))
+        if e.get("e") == "popbuf":
+            return ("math/popcount-buffer", "popcount(data, size) of the bytes %s is not the number of one bits (results for buffer alignments 0..7: %s)" % (e.get("bytes"), e.get("res")))
         return ("math/%s" % e.get("e"), "helper on small integers a=%s b=%s disagrees with its definition" % (e.get("a"), e.get("b")))
     for per in files:
         validate_traces(ctx, SD, "Trace_Bits", "Trace_Bits.cfg", per, classify, shards=NCPU if "word" in per or "arith" in per else 4, max_rejects=6)
